@@ -55,7 +55,8 @@ type c03Case struct {
 	SQL    string     `json:"sql"`
 	N      int        `json:"n"`
 	Cols   []string   `json:"cols"`
-	Mode   string     `json:"mode"`   // all | few | single
+	Mode   string     `json:"mode"` // all | few | single | global
+	Global bool       `json:"global_window,omitempty"`
 	Regime string     `json:"regime"` // value regime
 	Groups int        `json:"groups"`
 	Items  []*c03Item `json:"items"`
@@ -352,7 +353,15 @@ func genC03(ref core.CaseRef, r *rand.Rand) *c03Case {
 	}
 	// select list
 	var fns []string
+	if ref.Index%7 == 5 {
+		// numeric aggregates (plain and parameterised) over batches formed by GLOBAL WINDOW TRIGGER WHEN count(*) >= N
+		c.Global, c.Mode = true, "global"
+	}
 	switch c.Mode {
+	case "global":
+		for i, k := 0, 2+r.Intn(3); i < k; i++ {
+			fns = append(fns, pick(r, []string{"count", "sum", "avg", "min", "max", "percentile", "nth_value", "median", "stddevs"}))
+		}
 	case "all":
 		fns = append([]string{}, c03AllFns...)
 		fns = append(fns, "count") // count(*) and count(x) both
@@ -404,6 +413,10 @@ func genC03(ref core.CaseRef, r *rand.Rand) *c03Case {
 	}
 	sel = append(sel, "collect(id) AS ids")
 	gb := append(append([]string{}, c.Cols...), fmt.Sprintf("CountingWindow(%d)", c.N))
+	if c.Global {
+		// the same batches of N rows per group, formed by a global window
+		gb[len(gb)-1] = fmt.Sprintf("GLOBAL WINDOW TRIGGER WHEN count(*) >= %d", c.N)
+	}
 	c.SQL = "SELECT " + strings.Join(sel, ", ") + " FROM stream GROUP BY " + strings.Join(gb, ", ")
 	c.Shuf = r.Int63()
 	return c
